@@ -394,6 +394,17 @@ impl<'w> Ctx<'w> {
             }
         }
         if let Expr::Index(ix) = lhs {
+            if let Ok(b) = self.expr(&ix.expr) {
+                if self.resolve(&b.ty) == Ty::Named("GhostArr".into()) {
+                    // an element of a content-free array: the index is checked, the value is not stored
+                    let i = self.expr(&ix.index)?;
+                    self.unify(&i.ty, &Ty::U(64))?;
+                    self.flush_pre(n, out);
+                    out.push(format!("{}let _ ← idxCheck {} {}", ind(n), paren(&b.s), paren(&i.s)));
+                    let _ = val;
+                    return Ok(());
+                }
+            }
             let pl = self.place_of(&ix.expr).ok_or("indexed assignment to a non-place")?;
             let i = self.expr(&ix.index)?;
             self.unify(&i.ty, &Ty::U(64))?;
@@ -1228,7 +1239,7 @@ impl World {
                         let lean_ty = format!("{} → M {}", ins?.join(" → "), paren(&out));
                         let pname = format!("ext_{}_{}", ty_name, name);
                         self.fns.insert(format!("{}.{}", ty_name, name), FnSig { lean: pname.clone(), params, ret, self_mut, has_self, uses_step: false, ret_is_res: is_res,
-                            uses_decompress: false, uses_w: false, view: None, uses_compress: false, rec_self: false, ext_ty: Some(lean_ty.clone()) });
+                            uses_decompress: false, uses_w: false, view: None, uses_compress: false, rec_self: false, ext_ty: Some(lean_ty.clone()), externs: vec![] });
                         return Ok(format!("-- external: `{}::{}` is a parameter `{} : {}` of its callers (signature read from the source)\n", ty_name, name, pname, lean_ty));
                     }
                 }
@@ -1349,9 +1360,16 @@ impl World {
             let fuel = opts.get("fuel").ok_or("rec=1 needs fuel=")?;
             let _ = fuel;
             let mut ps: Vec<(Ty, bool)> = vec![];
+            let (mut rec_has_self, mut rec_self_mut) = (false, false);
             for inp in &sig.inputs {
                 match inp {
-                    FnArg::Receiver(_) => return Err("recursive method with self".into()),
+                    FnArg::Receiver(r) => {
+                        let tn = ty_name.ok_or("self outside impl")?;
+                        let bm = r.reference.is_some() && r.mutability.is_some();
+                        rec_has_self = true;
+                        rec_self_mut = bm;
+                        ps.push((Ty::Named(tn.to_string()), bm));
+                    }
                     FnArg::Typed(pt) => {
                         let by_mut = matches!(&*pt.ty, Type::Reference(r) if r.mutability.is_some());
                         let t = self.ty_of(&pt.ty, &generics)?;
@@ -1361,8 +1379,8 @@ impl World {
                 }
             }
             let (rt, is_res) = match &sig.output { ReturnType::Default => (Ty::Unit, false), ReturnType::Type(_, t) => match self.ty_of(t, &generics)? { Ty::Res(x) => (*x, true), o => (o, false) } };
-            self.fns.insert(fn_key.clone(), FnSig { lean: format!("{}.go", lean_name), params: ps, ret: rt, self_mut: false, has_self: false, uses_step: false, ret_is_res: is_res,
-                uses_decompress: declared_uses.contains(&"decompress"), uses_w: false, view: None, uses_compress: false, rec_self: true, ext_ty: None });
+            self.fns.insert(fn_key.clone(), FnSig { lean: format!("{}.go", lean_name), params: ps, ret: rt, self_mut: rec_self_mut, has_self: rec_has_self, uses_step: false, ret_is_res: is_res,
+                uses_decompress: declared_uses.contains(&"decompress"), uses_w: false, view: None, uses_compress: false, rec_self: true, ext_ty: None, externs: vec![] });
         }
         let mut ctx = Ctx {
             w: self, vars: vec![BTreeMap::new()], widths: Rc::new(RefCell::new(vec![])), ivar_parent: Rc::new(RefCell::new(vec![])),
@@ -1505,6 +1523,7 @@ impl World {
             text = text.replacen(&format!("def {} ", lean_name), &format!("def {} ({} : {}) ", lean_name, pn, pt), 1);
         }
         let has_externs = !ctx.used_externs.is_empty();
+        let my_externs: Vec<(String, String)> = ctx.used_externs.clone();
         if ctx.used_xdecompress {
             text = text.replacen(&format!("def {} ", lean_name), &format!("def {} (xdecompress : String → List UInt8 → Option (List UInt8)) ", lean_name), 1);
         }
@@ -1539,19 +1558,24 @@ impl World {
             }
         }
         drop(ctx);
-        if has_externs && is_rec { return Err("recursive function over external methods".into()); }
+        if has_externs && is_rec {
+            // the calls of the function to itself were emitted before its externals were known: hand them on
+            let extn: String = my_externs.iter().map(|(n, _)| format!("{} ", n)).collect();
+            text = text.replace(&format!("← Grenad.Gen.{} ", lean_name), &format!("← Grenad.Gen.{} {}", lean_name, extn));
+        }
         if is_rec {
             if used_step || uses_w || used_compress { return Err("recursive function over an external cursor / writer".into()); }
             if used_decompress != declared_uses.contains(&"decompress") { return Err("recursive function: declare `uses=decompress` exactly when it is used".into()); }
             let fuel = opts.get("fuel").unwrap();
-            let names: Vec<String> = sig.inputs.iter().filter_map(|i| match i { FnArg::Typed(pt) => match &*pt.pat { Pat::Ident(i) => Some(lean_ident(&i.ident.to_string())), _ => None }, _ => None }).collect();
-            let ext = if used_decompress { "(decompress : CompressionType → List UInt8 → Option (List UInt8)) " } else { "" };
-            let extn = if used_decompress { "decompress " } else { "" };
+            let names: Vec<String> = sig.inputs.iter().filter_map(|i| match i { FnArg::Receiver(_) => Some("self_".to_string()), FnArg::Typed(pt) => match &*pt.pat { Pat::Ident(i) => Some(lean_ident(&i.ident.to_string())), _ => None } }).collect();
+            let mut ext = if used_decompress { "(decompress : CompressionType → List UInt8 → Option (List UInt8)) ".to_string() } else { String::new() };
+            let mut extn = if used_decompress { "decompress ".to_string() } else { String::new() };
+            for (n, t) in &my_externs { ext.push_str(&format!("({} : {}) ", n, t)); extn.push_str(&format!("{} ", n)); }
             text.push_str(&format!("\ndef {} {}{} : M {} :=\n  {} {}{} ({})\n", plain_name, ext, params.join(" "), paren(&lean_ret), lean_name, extn, names.join(" "), fuel));
         }
         self.fns.insert(
             fn_key,
-            FnSig { lean: plain_name, params: sig_params, ret: ret_inner, self_mut, has_self, uses_step: used_step, ret_is_res: matches!(ret, Ty::Res(_)), uses_decompress: used_decompress, uses_w, view, uses_compress: used_compress, rec_self: false, ext_ty: None },
+            FnSig { lean: plain_name, params: sig_params, ret: ret_inner, self_mut, has_self, uses_step: used_step, ret_is_res: matches!(ret, Ty::Res(_)), uses_decompress: used_decompress, uses_w, view, uses_compress: used_compress, rec_self: false, ext_ty: None, externs: my_externs },
         );
         Ok(text)
     }
